@@ -5,7 +5,7 @@ const S = require('../lib/smap')
 const { makeAligner } = require('../lib/stmtalign')
 const { plan: structPlan, jobs: structJobs } = require('../lib/structwork')
 const { rewriteJobs, kind } = require('../lib/pipeline')
-const { Rng, hashStr, clip } = require('../lib/util')
+const { Rng, hashStr, clip, lineStarts, splitLines, hasRawLsPs } = require('../lib/util')
 const G = require('../lib/gen_hostile')
 
 const basename = (f) => { const p = f.replace(/\/+$/, '').split('/'); return p[p.length - 1] }
@@ -42,9 +42,10 @@ function check (job, resp, prefix) {
   let toks
   try { toks = S.decodeMappings(t.map) } catch (e) { push('mappings-undecodable', e.message); return { out, violations } }
   out.mappings = toks.length
-  const inLines = job.code.split('\n')
+  if (hasRawLsPs(job.code)) { out.skipped = 'raw-ls-ps-line-convention-ambiguous'; return { out, violations } }
+  const inLines = splitLines(job.code)
   const outCode = t.code
-  const outLines = outCode.split('\n')
+  const outLines = splitLines(outCode)
   // range: every mapping points inside the input text
   for (const m of toks) {
     if (m.src === undefined) continue
@@ -66,11 +67,8 @@ function check (job, resp, prefix) {
   const al = AL.align(a, b)
   out.aligned = al.problems.length === 0
   const byLine = S.indexByGenLine(toks)
-  const lineStartsOut = [0]
-  for (let i = 0; i < outCode.length; i++) if (outCode[i] === '\n') lineStartsOut.push(i + 1)
+  const lineStartsOut = lineStarts(outCode)
   const posOut = (line0, col) => lineStartsOut[line0] + col
-  const lineStartsIn = [0]
-  for (let i = 0; i < job.code.length; i++) if (job.code[i] === '\n') lineStartsIn.push(i + 1)
   // copied identifiers: exact mapping to the same identifier text
   const prologueRanges = al.injected.filter(x => x.kind === 'prologue').map(x => [x.node.start, x.node.end])
   const inPrologue = (pos) => prologueRanges.some(([s, e]) => pos >= s && pos < e)
@@ -145,7 +143,7 @@ module.exports = {
   id: 'C09',
   level: 'exploration',
   rule: 'for every modified output the embedded map is decoded by an independent VLQ decoder; monitors: v3 envelope; sources == [basename(file)]; every mapping inside the input text; every copied variable reference/binding of the output (acorn AST, injected names excluded) has a mapping starting exactly at it that lands exactly on the same identifier text in the input; every mapped token of the output lies, after statement-level alignment of output and input, within the line span of the original statement it belongs to (injected let: enclosing block; prologue: must not be mapped). Workload: corpus, catalogue, random programs, layout programs (multi-line statements, CRLF, BOM, tabs, non-ASCII before identifiers), hostile file names. distinct_nontrivial = distinct (input, config, file) outputs whose map was fully checked.',
-  assumptions: ['columns are UTF-16 code units on both sides (what V8 reports)', 'inputs with HTML-like comments (<!-- / -->) are skipped: swc positions the following token inside the comment', 'lone CR / U+2028 / U+2029 line terminators are not generated', 'files whose statements cannot be aligned (count mismatch) only get the envelope/range/identifier checks and are counted'],
+  assumptions: ['columns are UTF-16 code units on both sides (what V8 reports)', 'inputs with HTML-like comments (<!-- / -->) are skipped: swc positions the following token inside the comment', 'lines end at LF, CRLF or a lone CR (swc, V8 and acorn agree); inputs with raw U+2028 / U+2029 are skipped and counted: swc does not count them as line breaks while V8 and acorn do, so which line is the right one is not defined by the statement', 'files whose statements cannot be aligned (count mismatch) only get the envelope/range/identifier checks and are counted'],
   plan (ctx) {
     const shards = [{ kind: 'layout', count: ctx.tier === 'thorough' ? 6000 : 800 }]
     for (const s of structPlan(ctx, { quickCorpus: 280, exec: { quickRandom: 1500, quickFormsPerPlacement: 8, thoroughRandom: 20000 } })) shards.push(s)
